@@ -214,4 +214,23 @@ def run_function(cj):
             break
     if n:
         cj["threaded"] = cj.get("threaded", 0) + n
+        # a join all of whose predecessors were threaded away is dead: its assignments must not count as definitions
+        seen = {0}
+        st = [0]
+        while st:
+            b = st.pop()
+            t = cj["blocks"][b]["term"]
+            nx = _succs(t)
+            for k in ("unwind", "cleanup"):
+                if isinstance(t.get(k), int):
+                    nx.append(t[k])
+            for s in nx:
+                if s not in seen and 0 <= s < len(cj["blocks"]):
+                    seen.add(s)
+                    st.append(s)
+        for i, b in enumerate(cj["blocks"]):
+            if i not in seen and (b.get("inlined_from") or b.get("thread_clone") is not None or True) and b["term"].get("k") != "unreachable":
+                if b.get("stmts") or b["term"].get("k") in ("goto", "call", "switch", "drop"):
+                    b["stmts"] = []
+                    b["term"] = {"k": "unreachable", "sp": b["term"].get("sp"), "dead_after_threading": True}
     return n
